@@ -40,7 +40,7 @@ def df_blocked(c, op, pre):
 
 class Main(P.PorcelainSuite):
     name = "main"
-    quick_n = 170
+    quick_n = 150
     thorough_n = 2500
     buckets = [(5, "unstaged"), (4, "errors"), (3, "keep"), (2, "random"), (1, "staged"), (1, "df")]
     weights = {"force": 1, "plain": 6, "ckeep": 1, "hard": 1, "merge": 4, "keep": 3, "mixed": 1, "soft": 1}
